@@ -20,10 +20,26 @@ def prop(pid, **kw):
 
 prop(
     "C14",
-    level_text="Theorems for every value of the quantifier (no bound): the code tables extracted from the source equal the RFC tables, encoder and decoder mappings are mutual inverses on the whole range, the offset-history step equals the RFC rule for every offset value/history, sequence counts and headers round-trip. The hand-written shape of the lookups is tied to the code by dumping the real functions over their whole domain.",
-    engines=[{"name": "tables"}],
-    modelled="shape of the table lookups, offset-history step, sequence-count writer/parser, header parsers/writers are hand-written mirrors of the Rust; every table row, range arm, constant and guard operator is extracted from the source text on every run",
-    assumptions=["RFC 8878 tables typed by hand into Zstd/Spec/Tables.lean are a faithful copy of the RFC"],
+    level_text="Theorems for every value of the quantifier (no bound, no sampling): the code tables extracted from the source equal the RFC tables; encoder and decoder mappings for literal lengths 0..=131071, match lengths 3..=131074 and offset values 1..2^32-1 are mutual inverses (finite check on the extracted rows by `decide`, lifted to the whole range by induction over the row list; the `unreachable!` arms are shown unreachable in range and faulting outside it); the offset-history step equals the RFC rule for every offset value >= 1, both literal-length cases and every history; every sequence count 1..=98047 round-trips and the count parser equals the RFC on every byte sequence; block, literals-section and frame header parsers equal a hand-written RFC bit-field transcription on EVERY byte pattern (all 2^24 block headers, all 4 literals types x all size formats x every following byte, all 256 descriptors x every field content), every header the compressor can write is read back to the same values (block: every last/type/size<2^21; literals: raw < 2^20, compressed/treeless for every (regenerated, compressed) size that fits the format the source's thresholds select; frame: every requested window <= 2^41, declared window legal, >= requested and < 2x requested), sizes the format forbids are refused. The hand-written control flow of the model is tied to the code by dumping the real functions over their whole domain (all LL/ML values, all sequence counts, all 256x256 descriptor/window bytes, all first bytes of literals headers x sampled tails x truncations, 2^18 sampled + all boundary block headers; thorough: all 2^24) and by parse(write(x)) = x on the real code, including headers produced by the public compressor driven by a scripted Matcher.",
+    engines=[{"name": "tables"}, {"name": "headers"}],
+    modelled="control flow of the table lookups, offset-history step, sequence-count writer/parser, header parsers/writers and of the BitWriter calls they make are hand-written mirrors of the Rust; every table row, range arm, shift/mask expression (translated mechanically from the Rust expression text), size-format threshold, field-width table, constant and guard operator is extracted from the source text on every run",
+    assumptions=[
+        "RFC 8878 tables and header layouts typed by hand into Zstd/Spec/Tables.lean and Zstd/Spec/Headers.lean are a faithful copy of the RFC (the harness carries a second, independent Rust transcription of the header layouts as implementation-only oracle)",
+        "the entropy coder's output inside compress_literals ends byte aligned (script parameter `payload` of compressedLiteralsPatched); change_bits patching of the compressed size is tied by correspondence only (no theorem)",
+        "usize = u64; debug assertions and overflow checks on (the profile the harness and the test-suite build with)",
+    ],
+)
+
+prop(
+    "C11",
+    level_text="Theorems for every decoder value (any history of earlier frames, any registered dictionaries, any limit), every source and both construction paths: reset/init gets past the window check IFF the header's window is legal per RFC 8878 and <= the decoder's limit (accept_iff; first-use and reuse path; single-segment frames with window = content size, no lower bound); the limit is 128 MiB by default, set_max_window_size stores min(requested, format maximum) and every reachable decoder's limit is <= the format maximum; a frame that does not get past the check leaves the decoder EXACTLY as it was - allocation log, state and limit unchanged (reject_before_alloc, no hypothesis on the source) - and the error reports the requested window and the effective limit; StreamingDecoder::new / new_with_max_window_size / new_with_decoder and every frame of decode_all go through the same reset. The comparison operator, the order check-before-allocation on both paths, the clamp, which limit each path passes and what the error carries are extracted from the source text. Correspondence: the real FrameDecoder, decode_all and StreamingDecoder on all 256 window descriptors and 22 single-segment content sizes x limits {w-1, w, w+1, default, format max, u64::MAX} x 4 histories x 3 front ends; a counting global allocator observes that a rejecting call allocates 0 bytes; ring-buffer allocations (from the verif_hooks memory trace) are compared with the model's allocation log.",
+    engines=[{"name": "window"}],
+    modelled="control flow of FrameDecoderState::new/reset, FrameDecoder::new/set_max_window_size/reset/decode_all (frames with an empty last raw block), StreamingDecoder constructors, RingBuffer::reserve on a cleared buffer, read_frame_header and FrameHeader::window_size are hand-written mirrors; operators, order of check vs allocation, clamp, default, constants and header field expressions are extracted from the source text on every run",
+    assumptions=[
+        "RFC 8878 window formula and legal range typed by hand into Zstd/Spec/Tables.lean",
+        "acceptance on the reuse path allocates the window: exercised on the real code only for windows <= 128 MiB (memory budget ~300 MiB); above that the reuse path is covered by the theorem and by rejection cases only",
+        "DecoderScratch::new / reset allocate nothing window-sized other than the ring buffer (observed by the counting allocator for the exercised cases)",
+    ],
 )
 
 prop(
@@ -56,7 +72,6 @@ prop(
     modelled="dictionary selection (resetCore/applyDictChoice/forceDict) and DecodeBuffer::repeat_from_dict on the abstract buffer mirror the Rust; the dictionary FILE parser in the executable model is the Spec parser (strict) — ruzstd's Dictionary::decode_dict is compared with it on every trained dictionary",
     assumptions=["libzstd (zstd crate) as referee for dictionary frames; note libzstd lets matches reach into the dictionary header bytes, the harness counts a frame as valid only if its RFC executor accepts it too"],
 )
-
 
 prop(
     "C01",
